@@ -4,21 +4,25 @@
    by deleting cache files. *)
 From Eupsv Require Import Base.Base Base.BaseLemmas Model.Db Model.Cache.
 From Eupsv Require Import Proofs.DbLib Proofs.Db Proofs.DbSim Proofs.DbInv Proofs.DbCor.
-From Eupsv Require Import Proofs.CacheLib Proofs.CacheWt Proofs.CacheRebuild Proofs.CacheEff.
+From Eupsv Require Import Proofs.CacheLib Proofs.CacheWt Proofs.CacheRebuild Proofs.CacheEff Proofs.CacheU.
 From Coq Require Import Lia.
 
-(* for product n the cache file agrees with the files, or a record of n is newer than the file,
-   or n has no version file any more while the cache file still lists it *)
-Definition pk_ok_n (w : world) (s f : str) (p : pickle) (n : str) : Prop :=
-  agree_n (pk_data p) (w_db w) s f n
-  \/ (In n (db_names (w_db w) s) /\ newer_n (w_db w) (w_stamps w) s n (pk_stamp p) = true)
+(* for product n the cache file of directory l agrees with the files -- the stack's records and, for
+   the user tags, the tag directory of the owner of l (nobody's for ups_db) --, or a record of n, or
+   the owner's tag directory for n, is newer than the file, or n has no version file any more while the
+   cache file still lists it *)
+Definition pk_ok_n (w : world) (l s f : str) (p : pickle) (n : str) : Prop :=
+  (agree_n (pk_data p) (w_db w) s f n /\ uagree_n (pk_data p) (w_db w) (w_uc w) (owner l) s f n)
+  \/ (In n (db_names (w_db w) s) /\
+      (newer_n (w_db w) (w_stamps w) s n (pk_stamp p) = true
+       \/ (l <> upsdb /\ pk_stamp p < stamp_of (w_stamps w) (RUDir l s n))))
   \/ (~ In n (db_names (w_db w) s) /\ alookup n (pk_data p) <> None).
 
 Record INV (w : world) : Prop := mkINV {
   inv_nd : no_dangling (view (w_db w));
   inv_st : forall k t, glookup rkey_eqb k (w_stamps w) = Some t -> t <= w_clock w;
   inv_pc : forall l s f p, pk_get w l s f = Some p -> pk_stamp p <= w_clock w;
-  inv_pk : forall l s f p, pk_get w l s f = Some p -> forall n, pk_ok_n w s f p n
+  inv_pk : forall l s f p, pk_get w l s f = Some p -> forall n, pk_ok_n w l s f p n
 }.
 
 Lemma init_INV path : INV (init_world path).
@@ -67,6 +71,19 @@ Proof.
   - apply (vfiles_frame_list es d s n0 s0 ((n, v), c) F); [|exact H]. exact Sc.
 Qed.
 
+Lemma do_effects_ukey tick es k : is_ukey k = true -> forall w,
+  glookup rkey_eqb k (w_stamps (do_effects tick w es)) = glookup rkey_eqb k (w_stamps w).
+Proof.
+  intro H. induction es as [|e es IH]; intro w; [reflexivity|]. rewrite do_effects_cons, IH.
+  cbn [do_effect w_stamps]. apply stamp_effect_ukey. exact H.
+Qed.
+
+Lemma no_decl_no_vis d uc uo s n f : (forall v, db_decl d s n v f = None) -> forall t, vis_u d uc uo s n t f = None.
+Proof.
+  intros H t. unfold vis_u. destruct uo as [u|]; [|reflexivity]. destruct (uc_tag uc u s n t f) as [v|]; [|reflexivity].
+  rewrite H. reflexivity.
+Qed.
+
 Lemma do_act_db tick w x : w_db (do_act tick w x) = apply (compile (w_db w) x) (w_db w).
 Proof. unfold do_act. apply do_effects_db. Qed.
 
@@ -98,25 +115,31 @@ Proof.
       * assert (Fresh : pk_stamp p < stamp_of (w_stamps (do_act tick w x)) (RDir (act_stack x) (act_name x))).
         { unfold do_act. apply dir_stamp_touch; auto. }
         destruct (in_dec str_eq_dec (act_name x) (db_names (w_db (do_act tick w x)) (act_stack x))) as [I|NI].
-        -- right. left. split; [exact I|]. unfold newer_n. apply Nat.ltb_lt in Fresh. rewrite Fresh. reflexivity.
+        -- right. left. split; [exact I|]. left. unfold newer_n. apply Nat.ltb_lt in Fresh. rewrite Fresh. reflexivity.
         -- destruct (alookup (act_name x) (pk_data p)) eqn:Ea.
            ++ right. right. split; [exact NI|congruence].
-           ++ left. pose proof (not_named_no_decl _ _ _ NI) as D0. split; intro k.
+           ++ left. pose proof (not_named_no_decl _ _ _ NI) as D0. split; [split; intro k|].
               ** unfold fd_decl. rewrite Ea. symmetry. apply D0.
               ** unfold fd_tag. rewrite Ea.
                  destruct (db_tag (w_db (do_act tick w x)) (act_stack x) (act_name x) k f) as [v|] eqn:Et; [|reflexivity].
                  exfalso. apply (proj1 (no_dangling_db _) ND' _ _ _ _ _ Et). apply D0.
+              ** intro t. unfold fd_utag. rewrite Ea. symmetry. apply no_decl_no_vis. intro v. apply D0.
     + (* another product: nothing about it changed *)
       assert (Fr : (n, f) <> act_nf x \/ s <> act_stack x).
       { destruct (str_eq_dec s (act_stack x)) as [->|]; [|auto]. left. intro E. apply N.
         unfold act_name. rewrite <- E. reflexivity. }
-      destruct PK as [[A1 A2]|[[I Nw]|[NI K]]].
-      * left. rewrite do_act_db. split; intro k; destruct (compile_frame (w_db w) x s n k f Fr) as [E1 E2].
+      destruct PK as [[[A1 A2] A3]|[[I Nw]|[NI K]]].
+      * left. rewrite do_act_db. split; [split; intro k; destruct (compile_frame (w_db w) x s n k f Fr) as [E1 E2]|].
         -- rewrite E1. apply A1.
         -- rewrite E2. apply A2.
+        -- intro t. rewrite (A3 t), do_act_uc. unfold vis_u. destruct (owner l) as [u|]; [|reflexivity].
+           destruct (uc_tag (w_uc w) u s n t f) as [v|]; [|reflexivity].
+           destruct (compile_frame (w_db w) x s n v f Fr) as [E1 _]. rewrite E1. reflexivity.
       * right. left. split.
         -- rewrite do_act_db. apply (db_names_frame _ _ _ _ _ _ SC N). exact I.
-        -- unfold do_act. apply (newer_n_frame tick _ w _ _ s n _ SC N). exact Nw.
+        -- destruct Nw as [Nw|[Nl Nw]].
+           ++ left. unfold do_act. apply (newer_n_frame tick _ w _ _ s n _ SC N). exact Nw.
+           ++ right. split; [exact Nl|]. unfold do_act, stamp_of. rewrite do_effects_ukey by reflexivity. exact Nw.
       * right. right. split; [|exact K]. rewrite do_act_db. intro I. apply NI.
         apply (db_names_frame _ _ _ _ _ _ SC N). exact I.
 Qed.
@@ -130,10 +153,11 @@ Proof. apply (glookup_gset pkey_eqb pkey_eqb_eq). Qed.
 
 (* writing a cache file from data that agrees with the files *)
 Lemma write_pickle_inv tick w l s f fd : clock_strict tick -> INV w -> agree fd (w_db w) s f ->
+  uagree fd (w_db w) (w_uc w) (owner l) s f ->
   INV (mkW (w_db w) (tick (w_clock w)) (w_stamps w)
-           (gset pkey_eqb (l, s, f) (mkPk (tick (w_clock w)) fd) (w_pickles w))).
+           (gset pkey_eqb (l, s, f) (mkPk (tick (w_clock w)) fd) (w_pickles w)) (w_uc w)).
 Proof.
-  intros CS [ND ST PC PK] AG. pose proof (CS (w_clock w)) as Ht. constructor; cbn [w_db w_clock w_stamps].
+  intros CS [ND ST PC PK] AG UG. pose proof (CS (w_clock w)) as Ht. constructor; cbn [w_db w_clock w_stamps w_uc].
   - exact ND.
   - intros k t H. specialize (ST k t H). lia.
   - intros l' s' f' p. unfold pk_get. cbn [w_pickles]. rewrite pk_get_gset.
@@ -142,7 +166,7 @@ Proof.
     + specialize (PC _ _ _ _ H). lia.
   - intros l' s' f' p. unfold pk_get at 1. cbn [w_pickles]. rewrite pk_get_gset.
     destruct (pkey_eqb (l', s', f') (l, s, f)) eqn:E; intros H n.
-    + apply pkey_eqb_eq in E. inversion E. subst. inversion H. left. apply AG.
+    + apply pkey_eqb_eq in E. inversion E. subst. inversion H. left. split; [apply AG|apply UG].
     + exact (PK _ _ _ _ H n).
 Qed.
 
@@ -152,9 +176,186 @@ Proof.
   assert (G : forall l' s' f' p, pk_get (delete_cache w l s f) l' s' f' = Some p -> pk_get w l' s' f' = Some p).
   { intros l' s' f' p. unfold pk_get, delete_cache. cbn [w_pickles].
     rewrite (glookup_gremove pkey_eqb pkey_eqb_eq). destruct (pkey_eqb (l', s', f') (l, s, f)); [discriminate|auto]. }
-  constructor; cbn [delete_cache w_db w_clock w_stamps].
+  constructor; cbn [delete_cache w_db w_clock w_stamps w_uc].
   - exact ND.
   - exact ST.
   - intros l' s' f' p H. exact (PC _ _ _ _ (G _ _ _ _ H)).
   - intros l' s' f' p H n. exact (PK _ _ _ _ (G _ _ _ _ H) n).
+Qed.
+
+(* ---------------------------------------------------------------- writes in a tag directory *)
+
+Lemma existsb_ext_local {A} (p q : A -> bool) l : (forall a, p a = q a) -> existsb p l = existsb q l.
+Proof. intro H. induction l as [|a l IH]; cbn; [reflexivity|]. rewrite H, IH. reflexivity. Qed.
+
+Lemma newer_n_stamps_ext d st st' s n tau :
+  (forall k, is_ukey k = false -> stamp_of st' k = stamp_of st k) ->
+  newer_n d st' s n tau = newer_n d st s n tau.
+Proof.
+  intro H. unfold newer_n. rewrite (H (RDir s n)) by reflexivity. f_equal; [f_equal|].
+  - apply existsb_ext_local. intro kv. rewrite (H (RVer s (fst kv))) by reflexivity. reflexivity.
+  - apply existsb_ext_local. intro kv. rewrite (H (RChain s (fst kv))) by reflexivity. reflexivity.
+Qed.
+
+(* a step that writes in the tag directory of user u for product n of stack s and nowhere else *)
+Record ustep (u s n : str) (w w' : world) : Prop := mkUstep {
+  us_db : w_db w' = w_db w;
+  us_pk : w_pickles w' = w_pickles w;
+  us_st : forall k, is_ukey k = false -> stamp_of (w_stamps w') k = stamp_of (w_stamps w) k;
+  us_mono : forall k, stamp_of (w_stamps w) k <= stamp_of (w_stamps w') k;
+  us_le : forall k t, glookup rkey_eqb k (w_stamps w') = Some t -> t <= w_clock w';
+  us_uc : forall u' s' n' t f, (u', s', n') <> (u, s, n) -> uc_tag (w_uc w') u' s' n' t f = uc_tag (w_uc w) u' s' n' t f;
+  us_new : w' = w \/ (w_clock w < w_clock w' /\ stamp_of (w_stamps w') (RUDir u s n) = w_clock w')
+}.
+
+Lemma ustep_inv u s n w w' : u <> upsdb -> ustep u s n w w' -> INV w -> INV w'.
+Proof.
+  intros Hu [Edb Epk Est Emono Ele Euc Enew] [ND ST PC PK].
+  assert (CL : w_clock w <= w_clock w') by (destruct Enew as [->|[H _]]; lia).
+  constructor.
+  - rewrite Edb. exact ND.
+  - exact Ele.
+  - intros l s' f p H. rewrite (pk_get_pickles w) in H by exact Epk. specialize (PC l s' f p H). lia.
+  - intros l s' f p H n'. rewrite (pk_get_pickles w) in H by exact Epk.
+    specialize (PK l s' f p H n'). specialize (PC l s' f p H). unfold pk_ok_n in *. rewrite Edb.
+    destruct Enew as [->|[Hc Hs]]; [exact PK|].
+    assert (Cases : (l, s', n') = (u, s, n) \/ (l, s', n') <> (u, s, n)).
+    { destruct (str_eq_dec l u) as [->|]; [|right; congruence]. destruct (str_eq_dec s' s) as [->|]; [|right; congruence].
+      destruct (str_eq_dec n' n) as [->|]; [left; reflexivity|right; congruence]. }
+    destruct Cases as [E|N].
+    + inversion E. subst l s' n'. clear E.
+      destruct (in_dec str_eq_dec n (db_names (w_db w) s)) as [I|NI].
+      * right. left. split; [exact I|]. right. split; [exact Hu|]. rewrite Hs. lia.
+      * destruct PK as [[A U]|[[I _]|K]]; [|contradiction|right; right; exact K].
+        left. split; [exact A|]. intro t. rewrite (U t).
+        rewrite !no_decl_no_vis; [reflexivity| |]; intro v; apply not_named_no_decl; exact NI.
+    + destruct PK as [[A U]|[[I Nw]|K]]; [| |right; right; exact K].
+      * left. split; [exact A|]. intro t. rewrite (U t). unfold vis_u, owner.
+        destruct (str_eqb_spec l upsdb) as [->|Nl]; [reflexivity|]. rewrite (Euc l s' n' t f N). reflexivity.
+      * right. left. split; [exact I|]. destruct Nw as [Nw|[Nl Nw]].
+        -- left. rewrite (newer_n_stamps_ext _ _ _ _ _ _ Est). exact Nw.
+        -- right. split; [exact Nl|]. specialize (Emono (RUDir l s' n')). lia.
+Qed.
+
+Lemma stamp_of_sset k t st k' : stamp_of (sset k t st) k' = if rkey_eqb k' k then t else stamp_of st k'.
+Proof. unfold stamp_of, sset. rewrite (glookup_gset rkey_eqb rkey_eqb_eq). destruct (rkey_eqb k' k); reflexivity. Qed.
+
+Lemma glookup_sset k t st k' : glookup rkey_eqb k' (sset k t st) = if rkey_eqb k' k then Some t else glookup rkey_eqb k' st.
+Proof. unfold sset. apply (glookup_gset rkey_eqb rkey_eqb_eq). Qed.
+
+Lemma stamp_of_le st c k : (forall k t, glookup rkey_eqb k st = Some t -> t <= c) -> stamp_of st k <= c.
+Proof. intro H. unfold stamp_of. destruct (glookup rkey_eqb k st) as [t|] eqn:E; [exact (H k t E)|lia]. Qed.
+
+Lemma ustep_refl u s n w : INV w -> ustep u s n w w.
+Proof. intros [_ ST _ _]. constructor; auto. Qed.
+
+Lemma ustep_trans u s n w1 w2 w3 : ustep u s n w1 w2 -> ustep u s n w2 w3 -> ustep u s n w1 w3.
+Proof.
+  intros [A1 A2 A3 A4 A5 A6 A7] [B1 B2 B3 B4 B5 B6 B7]. constructor.
+  - congruence.
+  - congruence.
+  - intros k H. rewrite (B3 k H). apply A3. exact H.
+  - intro k. specialize (A4 k). specialize (B4 k). lia.
+  - exact B5.
+  - intros u' s' n' t f N. rewrite (B6 _ _ _ _ _ N). apply A6. exact N.
+  - destruct B7 as [->|[Hc Hs]]; [exact A7|]. right. split; [|exact Hs].
+    destruct A7 as [->|[Hc' _]]; lia.
+Qed.
+
+(* the stamps after one write: the directory, or the directory and the chain file, get the new time *)
+Lemma ustamp_facts tick w u s n (ks : list rkey) (st' : list (rkey * nat)) :
+  clock_strict tick -> (forall k t, glookup rkey_eqb k (w_stamps w) = Some t -> t <= w_clock w) ->
+  (st' = sset (RUDir u s n) (tick (w_clock w)) (w_stamps w) \/
+   exists t, st' = sset (RUChain u s (n, t)) (tick (w_clock w)) (sset (RUDir u s n) (tick (w_clock w)) (w_stamps w))) ->
+  (forall k, is_ukey k = false -> stamp_of st' k = stamp_of (w_stamps w) k) /\
+  (forall k, stamp_of (w_stamps w) k <= stamp_of st' k) /\
+  (forall k t, glookup rkey_eqb k st' = Some t -> t <= tick (w_clock w)) /\
+  stamp_of st' (RUDir u s n) = tick (w_clock w).
+Proof.
+  intros CS ST H. pose proof (CS (w_clock w)) as Ht.
+  destruct H as [->|[t ->]].
+  - repeat split.
+    + intros k Hk. rewrite stamp_of_sset. destruct (rkey_eqb k (RUDir u s n)) eqn:E; [|reflexivity].
+      apply rkey_eqb_eq in E. subst k. discriminate.
+    + intro k. rewrite stamp_of_sset. destruct (rkey_eqb k (RUDir u s n)); [|lia].
+      pose proof (stamp_of_le _ _ k ST). lia.
+    + intros k t. rewrite glookup_sset. destruct (rkey_eqb k (RUDir u s n)); intro H; [inversion H; lia|].
+      specialize (ST k t H). lia.
+    + rewrite stamp_of_sset. replace (rkey_eqb (RUDir u s n) (RUDir u s n)) with true; [reflexivity|].
+      symmetry. apply rkey_eqb_eq. reflexivity.
+  - repeat split.
+    + intros k Hk. rewrite !stamp_of_sset. destruct (rkey_eqb k (RUChain u s (n, t))) eqn:E.
+      { apply rkey_eqb_eq in E. subst k. discriminate. }
+      destruct (rkey_eqb k (RUDir u s n)) eqn:E2; [|reflexivity]. apply rkey_eqb_eq in E2. subst k. discriminate.
+    + intro k. rewrite !stamp_of_sset. pose proof (stamp_of_le _ _ k ST).
+      destruct (rkey_eqb k (RUChain u s (n, t))); [lia|]. destruct (rkey_eqb k (RUDir u s n)); lia.
+    + intros k t0. rewrite !glookup_sset. destruct (rkey_eqb k (RUChain u s (n, t))); [intro H; inversion H; lia|].
+      destruct (rkey_eqb k (RUDir u s n)); intro H; [inversion H; lia|]. specialize (ST k t0 H). lia.
+    + rewrite !stamp_of_sset. cbn [rkey_eqb]. rewrite !str_eqb_refl. reflexivity.
+Qed.
+
+Lemma ukey_other u s n t u' s' n' t' : (u', s', n') <> (u, s, n) -> ukey_eqb (u', s', n', t') (u, s, n, t) = false.
+Proof.
+  intro N. destruct (ukey_eqb (u', s', n', t') (u, s, n, t)) eqn:E; [|reflexivity].
+  apply ukey_eqb_eq in E. inversion E. subst. exfalso. apply N. reflexivity.
+Qed.
+
+Lemma do_uset_ustep tick w u s n t f v : clock_strict tick -> INV w -> ustep u s n w (do_uset tick w u s n t f v).
+Proof.
+  intros CS [_ ST _ _]. pose proof (CS (w_clock w)) as Ht.
+  destruct (ustamp_facts tick w u s n [] (w_stamps (do_uset tick w u s n t f v)) CS ST) as [F1 [F2 [F3 F4]]].
+  { right. exists t. reflexivity. }
+  constructor; auto.
+  - intros u' s' n' t' f' N. rewrite do_uset_uc_tag, (ukey_other _ _ _ _ _ _ _ _ N). reflexivity.
+Qed.
+
+Lemma do_udel_ustep tick w u s n t f : clock_strict tick -> INV w -> ustep u s n w (do_udel tick w u s n t f).
+Proof.
+  intros CS I. pose proof I as [_ ST _ _]. pose proof (CS (w_clock w)) as Ht.
+  assert (UC : forall u' s' n' t' f', (u', s', n') <> (u, s, n) ->
+             uc_tag (w_uc (do_udel tick w u s n t f)) u' s' n' t' f' = uc_tag (w_uc w) u' s' n' t' f').
+  { intros u' s' n' t' f' N. rewrite do_udel_uc_tag, (ukey_other _ _ _ _ _ _ _ _ N). reflexivity. }
+  revert UC. unfold do_udel. destruct (amem f (uc_file (w_uc w) u s n t)); [|intros _; apply ustep_refl; exact I].
+  destruct (is_nil (aremove f (uc_file (w_uc w) u s n t))); intro UC.
+  - destruct (ustamp_facts tick w u s n [] (sset (RUDir u s n) (tick (w_clock w)) (w_stamps w)) CS ST) as [F1 [F2 [F3 F4]]];
+      [left; reflexivity|].
+    constructor; auto.
+  - destruct (ustamp_facts tick w u s n []
+                (sset (RUChain u s (n, t)) (tick (w_clock w)) (sset (RUDir u s n) (tick (w_clock w)) (w_stamps w))) CS ST)
+      as [F1 [F2 [F3 F4]]]; [right; exists t; reflexivity|].
+    constructor; auto.
+Qed.
+
+Lemma do_uset_inv tick w u s n t f v : clock_strict tick -> u <> upsdb -> INV w -> INV (do_uset tick w u s n t f v).
+Proof. intros CS Hu I. eapply ustep_inv; [exact Hu|apply do_uset_ustep; assumption|exact I]. Qed.
+
+Lemma do_udel_inv tick w u s n t f : clock_strict tick -> u <> upsdb -> INV w -> INV (do_udel tick w u s n t f).
+Proof. intros CS Hu I. eapply ustep_inv; [exact Hu|apply do_udel_ustep; assumption|exact I]. Qed.
+
+Lemma fold_udel_inv tick u s n f l : clock_strict tick -> u <> upsdb -> forall w, INV w ->
+  INV (fold_left (fun w t => do_udel tick w u s n t f) l w).
+Proof.
+  intros CS Hu. induction l as [|t l IH]; intros w I; [exact I|]. cbn [fold_left]. apply IH. apply do_udel_inv; assumption.
+Qed.
+
+Lemma do_uact_inv tick w u x : clock_strict tick -> u <> upsdb -> INV w -> INV (do_uact tick w u x).
+Proof.
+  intros CS Hu I. destruct x; cbn [do_uact]; try exact I. destruct (is_some _); [|exact I].
+  apply fold_udel_inv; assumption.
+Qed.
+
+Lemma do_uacts_inv tick u g : clock_strict tick -> u <> upsdb -> forall w, INV w -> INV (do_uacts tick w u g).
+Proof.
+  intros CS Hu. unfold do_uacts. induction g as [|x g IH]; intros w I; [exact I|]. cbn [fold_left]. apply IH.
+  apply do_uact_inv; assumption.
+Qed.
+
+Lemma do_uacts_db tick u g : forall w, w_db (do_uacts tick w u g) = w_db w.
+Proof.
+  unfold do_uacts. induction g as [|x g IH]; intro w; [reflexivity|]. cbn [fold_left]. rewrite IH. apply do_uact_db.
+Qed.
+
+Lemma do_uacts_pickles tick u g : forall w, w_pickles (do_uacts tick w u g) = w_pickles w.
+Proof.
+  unfold do_uacts. induction g as [|x g IH]; intro w; [reflexivity|]. cbn [fold_left]. rewrite IH. apply do_uact_pickles.
 Qed.
